@@ -159,7 +159,7 @@ def resolve (fns : Array FnDef) (home : Nat) (name : String) : Option Nat :=
       (h.imports.find? (fun p => p.1 == pre)).bind fun (_, alias_) =>
         let (sd, sfx) := Compiler.superDepth alias_
         if sd > h.ns.length then none else
-        findFn fns (joinNs (h.ns.take (h.ns.length - sd)) (alias_ ++ "." ++ sfx.getD (".".intercalate rest)))
+        findFn fns (joinNs (h.ns.take (h.ns.length - sd)) (sfx.getD alias_ ++ "." ++ ".".intercalate rest))
     | _ => none
 
 /-! ## evaluation -/
